@@ -135,7 +135,7 @@ theorem scores_length_le {T : Tuning S} {db : Db} {o : Opts S} {m : List (Nat ×
 /-! ### ids through the later stages when nothing is cut -/
 
 theorem limit_le_window (limit : Nat) : limit ≤ max (limit * rerankMult) rerankMin := by
-  unfold rerankMult rerankMin; omega
+  unfold rerankMult rerankMin Gen.SearchParams.rerankMult Gen.SearchParams.rerankMin; omega
 
 theorem rerank_ids_perm_of_le (T : Tuning S) (nq : Bytes) (limit : Nat) (r : List (Nat × S))
     (h : r.length ≤ max (limit * rerankMult) rerankMin) : ((rerank T nq limit r).map (·.1)).Perm (r.map (·.1)) := by
